@@ -5,7 +5,8 @@
 (* value lengths at the interesting boundaries.  The cursor of Tlv.tla is  *)
 (* run until it has answered None three times.  Invariants: the cursor     *)
 (* yields exactly the declarative walk (C11), stays in range and is        *)
-(* bounded by n/3 + 1 items (C03).                                         *)
+(* bounded by n/3 + 1 items (C03).  In program mode next / nth / a        *)
+(* consuming adaptor interleave on one cursor (OnTheWalk).                 *)
 (***************************************************************************)
 EXTENDS Tlv, Json, TLC
 
@@ -24,17 +25,58 @@ Sections ==
     UNION { [1..n -> Alphabet] : n \in 0..MaxLen }
     \cup UNION { Truncations(s) : s \in WellFormedSeqs }
 
+(***************************************************************************)
+(* Programs: on sections with several items of unequal sizes, every        *)
+(* interleaving of next() and nth(n) on ONE cursor (a cursor that has      *)
+(* already moved is where an overridden `nth` can go wrong), ended by a    *)
+(* consuming adaptor.  `prog` records the operations for the export.       *)
+(***************************************************************************)
+CONSTANTS ProgLens, NthArgs
+
+VARIABLES mode, prog
+
+(* value lengths of the items of the program sections (a cfg file cannot hold tuples) *)
+ProgLensQuick == { << 0, 1, 0, 2 >>, << 1, 0, 2, 0 >>, << 2, 1, 0 >>, << 0, 0, 3, 1, 0 >> }
+NthArgsQuick == {1, 2, -1}
+NthArgsThorough == {0, 1, 2, 3, -1}
+ProgLensThorough == ProgLensQuick \cup { << 1, 2, 3, 4, 0, 1 >>, << 3, 0, 0, 1, 2 >>, << 0, 255, 1, 0 >>, << 256, 0, 1, 2 >> }
+
+mcvars == << section, offset, yielded, mode, prog >>
+
+RECURSIVE ItemsOf(_)
+ItemsOf(lens) == IF lens = << >> THEN << >> ELSE Item(Len(lens), Head(lens), 16 + Len(lens)) \o ItemsOf(Tail(lens))
+
+ProgSections ==
+    LET full == { ItemsOf(l) : l \in ProgLens }
+    IN  full \cup { SubSeq(s, 1, Len(s) - 1) : s \in full } \cup { s \o << 7, 0 >> : s \in full }
+
 Nones == Cardinality({i \in 1..Len(yielded) : yielded[i].k = "none"})
 
-MCInit == \E s \in Sections : section = s /\ offset = 0 /\ yielded = << >>
-MCNext == Nones < 3 /\ Next
-MCSpec == MCInit /\ [][MCNext]_vars
+MCInit ==
+    /\ offset = 0 /\ yielded = << >> /\ prog = << >>
+    /\ \/ mode = "walk" /\ section \in Sections
+       \/ mode = "prog" /\ section \in ProgSections
+
+MCNext ==
+    \/ mode = "walk" /\ Nones < 3 /\ Next /\ UNCHANGED << mode, prog >>
+    \/ /\ mode = "prog" /\ Nones < 1
+       /\ \/ Next /\ prog' = Append(prog, [op |-> "next"])
+          \/ \E n \in NthArgs : Nth(n) /\ prog' = Append(prog, [op |-> "nth", n |-> n])
+          \/ Drain /\ prog' = Append(prog, [op |-> "rest", how |-> "collect"])
+       /\ UNCHANGED mode
+
+MCSpec == MCInit /\ [][MCNext]_mcvars
 
 ItemCount == Cardinality({i \in 1..Len(yielded) : yielded[i].k # "none"}) <= Len(section) \div 3 + 1
 
+WalkInvs == mode = "walk" => PrefixOfWalk /\ Tiling /\ Exhausts
+
 Export ==
-    (Nones = 3) =>
+    /\ (mode = "walk" /\ Nones = 3) =>
         PrintT("SCN" \o ToJson([fam |-> "tlv", tag |-> [g |-> "mc"], sec |-> RlOf(section),
+                                kinds |-> [i \in 1..Len(yielded) |-> yielded[i].k]]))
+    /\ (mode = "prog" /\ Nones = 1) =>
+        PrintT("SCN" \o ToJson([fam |-> "tlv", tag |-> [g |-> "mcprog"], sec |-> RlOf(section), progs |-> << prog >>,
                                 kinds |-> [i \in 1..Len(yielded) |-> yielded[i].k]]))
 
 =============================================================================
